@@ -52,6 +52,7 @@ pub fn check_spec(id: &str) -> Option<CheckSpec> {
         lane("conc/all-flavours/faults", conc("all", |_| {}), 300_000, 9_000_000),
         lane("conc/all-flavours/no-faults", conc("nofault", |p| p.faults = false), 150_000, 4_500_000),
         lane("conc/sync-only", conc("sync", |p| { p.asyncness = 0; p.cancel = false; }), 150_000, 4_500_000),
+        lane("shared-handle/close-vs-send", crate::chan::shared::SharedFamily { faults: true }, 100_000, 3_000_000),
       ],
       assumptions,
       notes: vec![],
@@ -84,6 +85,8 @@ pub fn check_spec(id: &str) -> Option<CheckSpec> {
         lane("conc/lifecycle/no-faults", conc("lifecycle-nf", |p| { p.hold_open_pct = 10; p.faults = false; }), 150_000, 4_500_000),
         lane("spmc/lifecycle", spmc(true, 2, true, true), 100_000, 3_000_000),
         lane("topic/lifecycle", topic(true, 2, true, true, true), 30_000, 1_000_000),
+        // one sender handle shared by reference: close() racing with a send on the same handle
+        lane("shared-handle/close-vs-send", crate::chan::shared::SharedFamily { faults: true }, 200_000, 6_000_000),
       ],
       assumptions,
       notes: vec![],
@@ -327,6 +330,7 @@ pub fn replay(path: &str) -> i32 {
     "IOC" => run_family_replay(crate::ioc::IocFamily { container: crate::ioc::Where::Instance, faults: true, cycles: true }, &v),
     "LOG-PIPE" => run_family_replay(crate::logpipe::LogFamily { faults: true, stop_anytime: true }, &v),
     "ROLLER" => run_family_replay(crate::rollsim::RollFamily, &v),
+    "CH-SHARED" => run_family_replay(crate::chan::shared::SharedFamily { faults: true }, &v),
     "LOCK" => run_family_replay(LockFamily { faults: true, cancel: true, starve: false }, &v),
     _ => Err(format!("unknown family {fam}")),
   };
